@@ -216,7 +216,7 @@ def worker_init() -> None:
     db = odxtools.load_pdx_file(p)
     for dl in db.diag_layers:
         layers[f"somersault:{dl.short_name}"] = dl
-    from ..zoo.layers import MATRIX_KINDS, build_matrix_layer, build_zoo_layer
+    from ..zoo.layers import MATRIX_KINDS, build_matrix_layer, build_zoo_layer, matrix_examples
     zoo_truth = {}
     for z in range(c05.N_ZOO):
         layer, truth, used = build_zoo_layer(z)
@@ -224,6 +224,7 @@ def worker_init() -> None:
         zoo_truth[f"zoo:{z}"] = {"examples": truth.get("examples", {})}
     for kind in MATRIX_KINDS:
         layers[f"zoo:m_{kind}"] = build_matrix_layer(kind)
+        zoo_truth[f"zoo:m_{kind}"] = {"examples": matrix_examples(kind)}
     # a layer whose description violates the specification (illegal type/encoding combinations):
     # strict mode reports these as errors, lenient mode downgrades them
     STATE["bad_layer"] = build_matrix_layer("bad")
@@ -681,6 +682,17 @@ def strict_failure_site(op: List[Any], sl: List[Any], exc_mod) -> str:
                 if co.short_name in names:
                     try:
                         co.decode(pdu)
+                    except Exception as e:  # noqa: BLE001
+                        sites.add(type(e).__name__ + "@" + exc_site(e))
+        if not sites:
+            # every coding object decodes the bytes on its own: the failure is at the level of the service
+            # (e.g. more than one of its coding objects accepts the message)
+            for svc in layer.services:
+                cos = ([svc.request] if svc.request is not None else []) + list(svc.positive_responses) + list(
+                    svc.negative_responses)
+                if any(co.short_name in names for co in cos):
+                    try:
+                        svc.decode_message(pdu)
                     except Exception as e:  # noqa: BLE001
                         sites.add(type(e).__name__ + "@" + exc_site(e))
     finally:
